@@ -175,7 +175,46 @@ pub struct Prog {
 // ---------------------------------------------------------------------------------------------
 // printer
 
+/// One identifier occurrence with the declaration the scope model resolves it to.
+#[derive(Clone, Debug, Serialize, Deserialize)]
+pub struct IdentUse {
+    pub offset: usize,
+    pub name: String,
+    /// byte range of the declaring occurrence of the name
+    pub decl: (usize, usize),
+    /// declared type when the generator knows it
+    pub ty: Option<T>,
+    /// how many same-named declarations were visible (>= 2 means shadowing was involved)
+    pub visible_same_name: usize,
+}
+
+#[derive(Default)]
+pub struct Recorder {
+    scopes: Vec<Vec<(String, usize, usize, Option<T>)>>,
+    pub uses: Vec<IdentUse>,
+    funcs: Vec<(String, usize, usize, T)>,
+}
+
+impl Recorder {
+    fn lookup(&self, name: &str) -> Option<(usize, usize, Option<T>, usize)> {
+        let mut found = None;
+        let mut count = 0;
+        for sc in self.scopes.iter().rev() {
+            for d in sc.iter().rev() {
+                if d.0 == name {
+                    count += 1;
+                    if found.is_none() {
+                        found = Some((d.1, d.2, d.3.clone()));
+                    }
+                }
+            }
+        }
+        found.map(|(a, b, t)| (a, b, t, count))
+    }
+}
+
 pub struct Printer<'a> {
+    pub rec: Option<Recorder>,
     pub p: &'a Prog,
     pub out: String,
     /// records (line number, statement marker) for checks that need locations
@@ -201,6 +240,109 @@ impl<'a> Printer<'a> {
                 } else {
                     format!("({}) -> {}", args.iter().map(|t| self.ty(t)).collect::<Vec<_>>().join(", "), self.ty(ret))
                 }
+            }
+        }
+    }
+
+    fn push_scope(&mut self) {
+        if let Some(r) = self.rec.as_mut() {
+            r.scopes.push(vec![]);
+        }
+    }
+    fn pop_scope(&mut self) {
+        if let Some(r) = self.rec.as_mut() {
+            r.scopes.pop();
+        }
+    }
+    /// write a declaring occurrence of `name`; the binding becomes visible when `declare` is called
+    fn w_decl(&mut self, name: &str) -> (usize, usize) {
+        let a = self.out.len();
+        self.w(name);
+        (a, a + name.len())
+    }
+    fn declare(&mut self, name: &str, range: (usize, usize), ty: Option<T>) {
+        if let Some(r) = self.rec.as_mut() {
+            if r.scopes.is_empty() {
+                r.scopes.push(vec![]);
+            }
+            r.scopes.last_mut().unwrap().push((name.to_string(), range.0, range.1, ty));
+        }
+    }
+    /// write a using occurrence of a variable
+    fn w_use(&mut self, name: &str) {
+        let off = self.out.len();
+        if let Some(r) = self.rec.as_mut() {
+            if let Some((a, b, t, n)) = r.lookup(name) {
+                r.uses.push(IdentUse { offset: off, name: name.to_string(), decl: (a, b), ty: t, visible_same_name: n });
+            }
+        }
+        self.w(name);
+    }
+    fn w_func_use(&mut self, name: &str) {
+        let off = self.out.len();
+        if let Some(r) = self.rec.as_mut() {
+            if let Some(f) = r.funcs.iter().find(|f| f.0 == name) {
+                let u = IdentUse { offset: off, name: name.to_string(), decl: (f.1, f.2), ty: Some(f.3.clone()), visible_same_name: 1 };
+                r.uses.push(u);
+            }
+        }
+        self.w(name);
+    }
+    /// print a pattern, returning the bindings it introduces (name, range)
+    fn w_pat(&mut self, p: &P) -> Vec<(String, (usize, usize))> {
+        let mut binds = vec![];
+        self.w_pat_inner(p, &mut binds);
+        binds
+    }
+    fn w_pat_inner(&mut self, p: &P, binds: &mut Vec<(String, (usize, usize))>) {
+        match p {
+            P::Bind(n) => {
+                let r = self.w_decl(n);
+                binds.push((n.clone(), r));
+            }
+            P::Tup(ps) => {
+                self.w("(");
+                for (i, q) in ps.iter().enumerate() {
+                    if i > 0 {
+                        self.w(", ");
+                    }
+                    self.w_pat_inner(q, binds);
+                }
+                self.w(")");
+            }
+            P::Variant(e, v, ps) => {
+                let name = self.p.enums[*e].variants[*v].0.clone();
+                self.w(&format!(".{name}"));
+                if !ps.is_empty() {
+                    self.w("(");
+                    for (i, q) in ps.iter().enumerate() {
+                        if i > 0 {
+                            self.w(", ");
+                        }
+                        self.w_pat_inner(q, binds);
+                    }
+                    self.w(")");
+                }
+            }
+            P::St(st, ps) => {
+                let name = self.p.structs[*st].name.clone();
+                self.w(&format!("{name}("));
+                for (i, q) in ps.iter().enumerate() {
+                    if i > 0 {
+                        self.w(", ");
+                    }
+                    self.w_pat_inner(q, binds);
+                }
+                self.w(")");
+            }
+            P::Some(q) => {
+                self.w(".some(");
+                self.w_pat_inner(q, binds);
+                self.w(")");
+            }
+            other => {
+                let t = self.pat(other);
+                self.w(&t);
             }
         }
     }
@@ -269,7 +411,7 @@ impl<'a> Printer<'a> {
             E::Bool(b) => self.w(&format!("{b}")),
             E::Str(s) => self.w(&crate::g::values::str_lit(s)),
             E::Nil => self.w("nil"),
-            E::Var(n) => self.w(n),
+            E::Var(n) => self.w_use(n),
             E::Bin(op, a, b) => {
                 self.atom(a, ind);
                 self.w(&format!(" {} ", op.sym()));
@@ -293,13 +435,13 @@ impl<'a> Printer<'a> {
             }
             E::Blk(b) => self.block(b, ind),
             E::Call(f, a) => {
-                self.w(f);
+                self.w_func_use(f);
                 self.w("(");
                 self.args(a, ind);
                 self.w(")");
             }
             E::CallV(f, a) => {
-                self.w(f);
+                self.w_use(f);
                 self.w("(");
                 self.args(a, ind);
                 self.w(")");
@@ -376,18 +518,26 @@ impl<'a> Printer<'a> {
             }
             E::Lam(ps, body) => {
                 self.w("(");
+                let mut decls = vec![];
                 for (i, (n, t)) in ps.iter().enumerate() {
                     if i > 0 {
                         self.w(", ");
                     }
+                    let r = self.w_decl(n);
+                    decls.push((n.clone(), r, t.clone()));
                     let t = self.ty(t);
-                    self.w(&format!("{n}: {t}"));
+                    self.w(&format!(": {t}"));
                 }
                 self.w(") -> ");
+                self.push_scope();
+                for (n, r, t) in decls {
+                    self.declare(&n, r, Some(t));
+                }
                 match &**body {
                     E::Blk(b) => self.block(b, ind),
                     other => self.atom(other, ind),
                 }
+                self.pop_scope();
             }
             E::Match(s, arms) => {
                 self.w("match ");
@@ -395,13 +545,17 @@ impl<'a> Printer<'a> {
                 self.w(" {\n");
                 for (p, b) in arms {
                     self.ind(ind + 1);
-                    let ps = self.pat(p);
-                    self.w(&ps);
+                    let binds = self.w_pat(p);
+                    self.push_scope();
+                    for (n, r) in binds {
+                        self.declare(&n, r, None);
+                    }
                     self.w(" -> ");
                     match b {
                         E::Blk(bl) => self.block(bl, ind + 1),
                         other => self.expr(other, ind + 1),
                     }
+                    self.pop_scope();
                     self.w("\n");
                 }
                 self.ind(ind);
@@ -412,10 +566,14 @@ impl<'a> Printer<'a> {
 
     fn lv(&mut self, l: &LV, ind: usize) {
         match l {
-            LV::Var(n) => self.w(n),
-            LV::Field(v, f) => self.w(&format!("{v}.{f}")),
+            LV::Var(n) => self.w_use(n),
+            LV::Field(v, f) => {
+                self.w_use(v);
+                self.w(&format!(".{f}"));
+            }
             LV::Index(v, i) => {
-                self.w(&format!("{v}["));
+                self.w_use(v);
+                self.w("[");
                 self.expr(i, ind);
                 self.w("]");
             }
@@ -423,6 +581,12 @@ impl<'a> Printer<'a> {
     }
 
     pub fn block(&mut self, b: &Block, ind: usize) {
+        self.push_scope();
+        self.block_inner(b, ind);
+        self.pop_scope();
+    }
+
+    fn block_inner(&mut self, b: &Block, ind: usize) {
         self.w("{\n");
         for s in &b.stmts {
             self.stmt(s, ind + 1);
@@ -441,7 +605,7 @@ impl<'a> Printer<'a> {
         match s {
             S::Let { mutable, name, ty, annotate, e } => {
                 self.w(if *mutable { "var " } else { "let " });
-                self.w(name);
+                let r = self.w_decl(name);
                 if *annotate {
                     let t = self.ty(ty);
                     self.w(&format!(": {t}"));
@@ -452,11 +616,16 @@ impl<'a> Printer<'a> {
                 } else {
                     self.expr(e, ind);
                 }
+                self.declare(name, r, Some(ty.clone()));
             }
             S::LetPat(p, e) => {
-                let ps = self.pat(p);
-                self.w(&format!("let {ps} = "));
+                self.w("let ");
+                let binds = self.w_pat(p);
+                self.w(" = ");
                 self.expr(e, ind);
+                for (n, r) in binds {
+                    self.declare(&n, r, None);
+                }
             }
             S::Assign(l, e) => {
                 self.lv(l, ind);
@@ -469,37 +638,61 @@ impl<'a> Printer<'a> {
                 self.expr(e, ind);
             }
             S::While { counter, n, body } => {
-                self.w(&format!("var {counter} = 0\n"));
+                self.w("var ");
+                let r = self.w_decl(counter);
+                self.w(" = 0\n");
+                self.declare(counter, r, Some(T::Int));
                 self.ind(ind);
-                self.w(&format!("while {counter} < {n} {{\n"));
+                self.w("while ");
+                self.w_use(counter);
+                self.w(&format!(" < {n} {{\n"));
+                self.push_scope();
                 self.ind(ind + 1);
-                self.w(&format!("{counter} += 1\n"));
+                self.w_use(counter);
+                self.w(" += 1\n");
                 for s in &body.stmts {
                     self.stmt(s, ind + 1);
                 }
+                self.pop_scope();
                 self.ind(ind);
                 self.w("}");
             }
             S::ForInt { var, n, body } => {
-                self.w(&format!("for {var} in "));
+                self.w("for ");
+                let r = self.w_decl(var);
+                self.w(" in ");
                 self.atom(n, ind);
                 self.w(" ");
+                self.push_scope();
+                self.declare(var, r, Some(T::Int));
                 self.block(body, ind);
+                self.pop_scope();
             }
             S::ForRange { var, lo, hi, body } => {
-                self.w(&format!("for {var} in range("));
+                self.w("for ");
+                let r = self.w_decl(var);
+                self.w(" in range(");
                 self.expr(lo, ind);
                 self.w(", ");
                 self.expr(hi, ind);
                 self.w(") ");
+                self.push_scope();
+                self.declare(var, r, Some(T::Int));
                 self.block(body, ind);
+                self.pop_scope();
             }
             S::ForArr { pat, arr, body } => {
-                let ps = self.pat(pat);
-                self.w(&format!("for {ps} in "));
+                self.w("for ");
+                let binds = self.w_pat(pat);
+                self.w(" in ");
                 self.atom(arr, ind);
                 self.w(" ");
+                self.push_scope();
+                for (n, r) in binds {
+                    self.declare(&n, r, None);
+                }
                 self.block(body, ind);
+                self.pop_scope();
             }
             S::Break => self.w("break"),
             S::Continue => self.w("continue"),
@@ -538,7 +731,12 @@ impl<'a> Printer<'a> {
 }
 
 pub fn print_prog(p: &Prog) -> String {
-    let mut pr = Printer { p, out: String::new(), line: 1, tmp: 0 };
+    print_prog_rec(p, false).0
+}
+
+/// print and, if asked, record every identifier occurrence with the declaration the scope model picks
+pub fn print_prog_rec(p: &Prog, record: bool) -> (String, Vec<IdentUse>) {
+    let mut pr = Printer { rec: if record { Some(Recorder::default()) } else { None }, p, out: String::new(), line: 1, tmp: 0 };
     for s in &p.structs {
         pr.w(&format!("type {} = {{\n", s.name));
         for (f, t) in &s.fields {
@@ -559,13 +757,43 @@ pub fn print_prog(p: &Prog) -> String {
         }
         pr.w("\n");
     }
+    // function names are visible everywhere (also before their definition): record them first
+    if pr.rec.is_some() {
+        let mut probe = Printer { rec: None, p, out: pr.out.clone(), line: 1, tmp: 0 };
+        let mut funcs = vec![];
+        for f in &p.funcs {
+            probe.w("fn ");
+            let a = probe.out.len();
+            funcs.push((f.name.clone(), a, a + f.name.len(), T::Fun(f.params.iter().map(|x| x.1.clone()).collect(), Box::new(f.ret.clone()))));
+            let ps = f.params.iter().map(|(n, t)| format!("{n}: {}", probe.ty(t))).collect::<Vec<_>>().join(", ");
+            let rt = probe.ty(&f.ret);
+            probe.w(&format!("{}({ps}) -> {rt} ", f.name));
+            probe.block(&f.body, 0);
+            probe.w("\n\n");
+        }
+        pr.rec.as_mut().unwrap().funcs = funcs;
+    }
     for f in &p.funcs {
-        let ps = f.params.iter().map(|(n, t)| format!("{n}: {}", pr.ty(t))).collect::<Vec<_>>().join(", ");
+        pr.w("fn ");
+        pr.w(&f.name);
+        pr.w("(");
+        pr.push_scope();
+        for (i, (n, t)) in f.params.iter().enumerate() {
+            if i > 0 {
+                pr.w(", ");
+            }
+            let r = pr.w_decl(n);
+            let ts = pr.ty(t);
+            pr.w(&format!(": {ts}"));
+            pr.declare(n, r, Some(t.clone()));
+        }
         let rt = pr.ty(&f.ret);
-        pr.w(&format!("fn {}({ps}) -> {rt} ", f.name));
+        pr.w(&format!(") -> {rt} "));
         pr.block(&f.body, 0);
+        pr.pop_scope();
         pr.w("\n\n");
     }
+    pr.push_scope();
     for s in &p.main.stmts {
         pr.stmt(s, 0);
     }
@@ -573,7 +801,8 @@ pub fn print_prog(p: &Prog) -> String {
         pr.expr(t, 0);
         pr.w("\n");
     }
-    pr.out
+    let uses = pr.rec.take().map(|r| r.uses).unwrap_or_default();
+    (pr.out, uses)
 }
 
 // ---------------------------------------------------------------------------------------------
